@@ -66,6 +66,10 @@ EXPLANATION += (
     ' Round 5: the declared normalization and the other settings are forwarded at every call (R-FWD/parameter-forwarded).'
 )
 
+EXPLANATION += (
+    ' Round 6: computed values are not cast to, or stored in place into, the element type of the raw data (R-DTYPE).'
+)
+
 RULE_TEXT = (
     "one obligation per dominance / typestate / provenance relation named "
     "above")
@@ -97,6 +101,18 @@ def check(ctx):
     check_tiles(ctx, ('validation.utils',), floor=8)
     # settings this property depends on are handed down every call
     # chain, never left to a callee's default (sa/rules/forwarding.py)
+    # computed values are not forced back into the element type of the
+    # raw data (sa/rules/idioms.py, R-DTYPE)
+    from ..rules.idioms import (check_narrowing_cast,
+                                check_inplace_float_store)
+    n_dt = 0
+    for fi_ in ctx.db.iter_functions():
+        if fi_.module.short.startswith(('cell_by_gene.', 'type_assignment.matching', 'type_assignment.election')):
+            n_dt += check_narrowing_cast(ctx, fi_)
+            n_dt += check_inplace_float_store(ctx, fi_)
+    ctx.ok('R-DTYPE/scan', 'normalisation and statistics modules', 'package',
+           'no computed value is cast to, or stored in place into, the '
+           'element type of the raw data', nontrivial=False)
     from ..rules.forwarding import check_forwarding
     check_forwarding(ctx, {'normalization'})
 
